@@ -187,6 +187,12 @@ def render_file(f):
             L.append("import pytest")
             L.append(f"@pytest.mark.parametrize('_p', {t['param']!r})")
             L.append(f"def {t['name']}(_p):")
+        elif t.get("async"):
+            # run by pytest-asyncio as a task of an event loop (a copied context)
+            if not t.get("xfail"):
+                L.append("import pytest")  # (the xfail decorator above already brought its import; nothing may stand between two decorators)
+            L.append("@pytest.mark.asyncio")
+            L.append(f"async def {t['name']}():")
         elif t.get("args"):
             L.append(f"def {t['name']}({t['args']}):")
         else:
